@@ -82,6 +82,7 @@ func ZZ_C10_SetCounter() {
 	mode := zzModes[zzConcretize(zzChoice("mode", len(zzModes)))]
 	r.mode = mode
 	v := zzNondetInt64("value")
+	zzAssume(v >= 0)
 	err := r.SetRevisionCounter(v)
 	if mode != types.RW {
 		zzReach("C17.setcounter-refused")
